@@ -1,7 +1,8 @@
 (* Encoders of the dispatch model's result into Obs.T for the correspondence check (C02).
    Only what the implementation run can observe is encoded: fire(), handler invocation with
-   nesting depth, stop(), handler return, flush() entry/exit; the ghost entries TSnap /
-   TDone are dropped (TDisp is observed by a priority-1000 observer handler). *)
+   handler invocation with nesting depth, stop(), generator return, raise, flush() entry. *)
+
+
 From Coq Require Import List ZArith Arith.
 From Circ Require Import Lib.Obs Model.DispatchOrder.
 Import ListNotations.
@@ -11,24 +12,34 @@ Import ListNotations.
 Definition pack (tag : Z) (a b c : Z) : T := Tn (tag + 16 * (a + 1024 * (b + 1024 * c)))%Z.
 Definition zn (n : nat) : Z := Z.of_nat n.
 
+(* the harness' dispatch observer is an ordinary handler (id 999, priority 1000, empty body) that the harness
+   puts into the handler table of every event name; its invocation is what the implementation run sees of a
+   dispatch *)
+Definition OBS : nat := 999.
 Definition enc_tr (e : tr Z) : list T :=
   match e with
-  | TFire x => [pack 0 (zn (ictr x)) (zn (iname x)) (ikey x + 1000)]
-  | TInv e h d => [pack 1 (zn e) (zn h) (zn d)]
+  | TFire x => [pack (match imode x with MNormal => 0 | MCancel => 11 | MPreStop => 12 end)
+                     (zn (ictr x)) (zn (iname x)) (ikey x + 1000)]
+  | TInv e h d => if Nat.eqb h OBS then [pack 6 (zn e) 0 0] else [pack 1 (zn e) (zn h) (zn d)]
   | TStop e h => [pack 2 (zn e) (zn h) 0]
   | TFlushB => [pack 4 0 0 0]
-  | TDisp x => [pack 6 (zn (ictr x)) 0 0]
   | TGen e h => [pack 9 (zn e) (zn h) 0]
+  | TRaise e h => [pack 10 (zn e) (zn h) 0]
   (* handler return / flush return are implied by the depth field of the following TInv entries and by
-     the position of the other entries; they are left out to keep the compared literals small *)
-  | TRet _ _ | TFlushE | TSnap | TDone _ => []
+     the position of the other entries; TDisp / TSnap / TDone are ghost entries *)
+  | TRet _ _ | TFlushE | TSnap | TDone _ | TDisp _ => []
   end.
 
 (* handler table literal: (event name, [(hid, priority, body)]) *)
 Definition mkh (h : nat) (p : Z) (b : list (act Z)) : handlerZ := Build_handler h p b.
 
 (* short constructors with Z arguments: keeps the generated case files small *)
-Definition F (n k : Z) : act Z := AFire (Z.to_nat n) k.
+Definition F (n k : Z) : act Z := AFire (Z.to_nat n) k MNormal.
+Definition FC (n k : Z) : act Z := AFire (Z.to_nat n) k MCancel.
+Definition FS (n k : Z) : act Z := AFire (Z.to_nat n) k MPreStop.
+(* raise: the dispatcher fires [<name>_failure (name n, if n >= 0);] exception (name 98), priority 0 *)
+Definition RA (n : Z) : act Z :=
+  ARaise ((if (n <? 0)%Z then [] else [(Z.to_nat n, 0%Z)]) ++ [(98%nat, 0%Z)]).
 Definition X : act Z := AFlush.
 Definition P : act Z := AStop.
 Definition G : act Z := AGen.
